@@ -48,6 +48,11 @@ def bases():
             if kind == 'download' and extra['dst'] == 'path':
                 t['preexisting'] = size == 20
             out.append({'min_part': 8, 'config': dict(cfg), 'transfers': [t]})
+    # multipart transfers of exactly ONE part (multipart_threshold <= size <= multipart_chunksize)
+    cfg1 = dict(cfg, multipart_threshold=8, multipart_chunksize=16)
+    for t in ({'kind': 'upload', 'src': 'path', 'size': 12}, {'kind': 'upload', 'src': 'nonseekable', 'size': 12}, {'kind': 'copy', 'size': 12},
+              {'kind': 'download', 'dst': 'path', 'size': 12}, {'kind': 'download', 'dst': 'nonseekable', 'size': 12}):
+        out.append({'min_part': 16, 'config': dict(cfg1), 'transfers': [t]})
     return out
 
 
